@@ -7,6 +7,8 @@
    byte-level integrity is exercised, not proved. *)
 From Coq Require Import String List.
 From Verif Require Import Lib.Base Lib.PyStr Lib.Crypto Model.Lv Proofs.Lv_proofs Model.TokenFmt Proofs.TokenFmt_proofs.
+From Coq Require Import ZArith.
+From Verif Require Gen.Src_token Proofs.Src_refine.
 Import ListNotations.
 Open Scope string_scope.
 
@@ -82,3 +84,10 @@ Example C04_nonvacuous :
   opaque_info 0 KRefresh (opaque_token 0 (PS "n") (PS "r") KCode (PS "sid") (PS "99")) = TErr EWrongClass /\
   opaque_info 0 KAccess (opaque_token 0 (PS "n") (PS "3:abc") KAccess (PS "sid:1;;2") (PS "-1")) = TOk (Some (PS "sid:1;;2")).
 Proof. vm_compute. repeat split; reflexivity. Qed.
+
+(* TIE BY TRANSLATION: is_expired (used by JWTToken.info and IDToken.info) as it reads in /repo/src NOW. *)
+Theorem C04_is_expired_is_source : forall exp when clock,
+  Src_token.is_expired_src (VInt exp) (VInt when) (VInt clock)
+  = Ok (VBool (if (exp <? 0)%Z then false else ((if (when =? 0)%Z then clock else when) >? exp)%Z)).
+Proof. exact Src_refine.is_expired_refines. Qed.
+Print Assumptions C04_is_expired_is_source.
